@@ -139,7 +139,14 @@ class NbFile:
         self.CNF = z3.Function("CNF", I, I, I)
         self.NBF = z3.Function("NBF", I, I, I, I)
         self.MAXC = z3.Function("MAXC", I, I)
-        self.Nmax = ctx.int("max_neighbors")
+        self._ctx, self._nmax = ctx, None
+
+    @property
+    def Nmax(self):
+        """the cap handed to read_neighbors (argument max_neighbors of __init__); only the file-level facts mention it"""
+        if self._nmax is None:
+            self._nmax = self._ctx.int("max_neighbors")
+        return self._nmax
 
     # ---- the spec functions shared by __init__ (ensures) and relaxation / sq4 (value of self.neighborlists)
     def nl(self, n, i, c):
